@@ -223,7 +223,9 @@ def random_case(rng):
         frames[0]["haspr"] = True
         total = sum(len(fr["pr"]) for fr in frames)
     ties = rng.random() < 0.15
-    pool = [rng.randint(1, 5) * 8 for _ in range(total)] if ties else rng.sample(range(1, 64 * 4), total)
+    pool = [rng.randint(0, 5) * 8 for _ in range(total)] if ties else rng.sample(range(0, 64 * 4), total)
+    if total and rng.random() < 0.2:
+        pool[rng.randrange(total)] = 0      # an instance score of exactly 0 (the default of PredictedInstance.from_numpy) is a score (seed C16_r12)
     k = 0
     for fr in frames:
         fr["sc"] = pool[k:k + len(fr["pr"])]
